@@ -13,7 +13,7 @@ ID = "C14"
 LEVEL = "exploration"
 TECHNIQUE = "shadow-registry oracle after every operation + icontract class invariant on Model"
 RULE = ("alphabet {create a, create b, create p (an agent whose initialize() creates a companion agent), a creation whose initialize() raises, delete_agents(agent_ids(a)) with the model's own list, create_agents(a,2), delete oldest, delete newest, delete two ids, delete unknown id, "
-        "configure_agents, reset, flip state}: ALL sequences of length<=4 (quick) / <=5 (thorough), plus seeded random sequences "
+        "configure_agents, Model.configure(dictionary), reset, flip state}: ALL sequences of length<=4 (quick) / <=5 (thorough), plus seeded random sequences "
         "of length 10-40; after every operation agent(id) for every id ever issued, agent_ids/agent_count per type, "
         "agent_count_per_state and next_agent per (type,state), random_agents. distinct_nontrivial = distinct operation "
         "sequences that contain at least one deletion/reconfiguration followed by a query on a non-empty population.")
@@ -21,7 +21,7 @@ ASSUMPTIONS = ["agent_ids order is not judged (compared as multisets)", "models 
 REQUIRED = {"queries": 10000, "invariant_evaluations": 1000}
 BUDGET_S = {"quick": 100, "thorough": 1200}
 
-OPS = ["create_a", "create_b", "create_a2", "del_oldest", "del_newest", "del_two", "del_unknown", "configure", "reset", "flip", "create_p", "del_all_a_alias", "create_fail"]
+OPS = ["create_a", "create_b", "create_a2", "del_oldest", "del_newest", "del_two", "del_unknown", "configure", "reset", "flip", "create_p", "del_all_a_alias", "create_fail", "configure_dict"]
 TYPES = ("a", "b", "p", "x")
 STATES = ["active", "idle"]
 
@@ -178,6 +178,14 @@ def apply(m, sh, op, counters):
                 m.delete_agent(dead[0])
     elif name == "configure":
         m.configure_agents([{"name": "a", "count": 1}, {"name": "b", "count": 2}])
+        sh.live.clear()
+        for ag in m.agents:
+            if ag.id in sh.issued:
+                return dict(kind="id-reused", id=ag.id)
+            sh.created(ag, ag.agent_type)
+    elif name == "configure_dict":
+        # the route scenario files and dictionaries take: Model.configure(config)
+        m.configure({"runspecs": {"starttime": 1, "stoptime": 5, "dt": 1}, "properties": {}, "agents": [{"name": "b", "count": 1}, {"name": "a", "count": 2}]})
         sh.live.clear()
         for ag in m.agents:
             if ag.id in sh.issued:
